@@ -150,4 +150,8 @@ def riUpdate (p : Params) (q : RICtx) (Errval EMErrval : Int) : RICtx :=
   if q.N = p.RESET then { q with A := A / 2, N := q.N / 2 + 1, Nn := Nn / 2 }
   else { q with A := A, N := q.N + 1, Nn := Nn }
 
+/-- code segments A.10 `for(k=0; (N[Q]<<k) < A[Q]; k++);` and A.20 (the same loop against `TEMP`)
+    as a predicate: `k` is the least exponent with `N·2^k ≥ A` -/
+def IsGolombK (N A : Int) (k : Nat) : Prop := A ≤ N * 2 ^ k ∧ ∀ j : Nat, j < k → N * 2 ^ j < A
+
 end T87
